@@ -32,7 +32,10 @@ AllDefects == {"srflxNoCloseOnReject",  \* gatherCandidatesSrflx: addCandidate e
                "srflxWatcherCloses",    \* ... the loop.Done() watcher closes conn and the error path closes it again (F-C09b);
                                         \* without it (repaired tree, 8a84c13) watcher and error paths share one sync.Once closer
                "handoffRace",           \* addCandidate checks ctx before loop.Run only; Run's select may still hand off (F-C18c)
-               "closeSkipsOld"}         \* Close waits for the latest cycle only; superseded cycles may still hold resources
+               "closeSkipsOld",         \* Close waits for the latest cycle only; superseded cycles may still hold resources
+               "watcherFollowsCycle"}   \* the loop.Done() watcher of the srflx gatherer gives up when its cycle is cancelled, so the closing
+                                        \* agent no longer unblocks a superseded exchange (before 258732c); repaired: it lives until the
+                                        \* gatherer returns
 HasGate(s) == s # "srflx-mux"
 HasFlight(s) == s \in {"srflx-own", "srflx-mux", "relay"}
 IsMux(s) == s \in {"host-udpmux", "host-tcpmux", "srflx-mux"}
@@ -101,7 +104,7 @@ WatcherFire(c) ==
   /\ pc' = [pc EXCEPT ![c] = IF pc[c] = "flight" THEN "ferr" ELSE pc[c]]   \* the pending read is aborted
   /\ UNCH_CYC /\ UNCH_ENV /\ UNCHANGED <<gs, aid, narr, own, comp, nils, nilg, npub, pubmix>>
 WatcherExit(c) ==
-  /\ WatcherOn(c) /\ (Dead(c) \/ pc[c] \in {"finish", "done"})
+  /\ WatcherOn(c) /\ (("watcherFollowsCycle" \in Defects /\ Dead(c)) \/ pc[c] \in {"finish", "done"})
   /\ wf' = [wf EXCEPT ![c] = "exited"]
   /\ UNCH_CYC /\ UNCH_ENV /\ UNCHANGED <<gs, pc, aid, narr, res, own, comp, nils, nilg, npub, pubmix>>
 \* GetXORMappedAddr returned an error: closeConnAndLog
